@@ -86,6 +86,9 @@ def run(tier, seed, replay=None):
         probes.append(('string', txt, lib.ser_py(s)))
         if rng.random() < 0.3:
             probes.append(('string', f'(print {txt} {txt})', f'( O7072696e74 {lib.ser_py(s)} {lib.ser_py(s)} )'))
+    # shebang lines: only a text that begins with #! has its first line skipped (white space first is lexed as _INTER)
+    for t in ['#!foo\n1', '\n#!foo\n1', ' #!foo\n1', '\t#!x\n1 2', '#!\n1', '  \n#!foo\n(a)', '#!a\n#!b\n1', '#!x', '#! \n']:
+        probes.append(('random', t, None))
     for t, v in (('#t', True), ('#f', False), ('true', True), ('false', False)):
         probes.append(('bool', t, lib.ser_py(v)))
         probes.append(('bool', f'({t} x)', f'( {lib.ser_py(v)} Y78 )'))
